@@ -462,6 +462,13 @@ def run(tier: str, seed: int) -> list[Part]:
     p17.notes.append("with the pinned-commit rule (a failed backtrack rebuilds a payloaded transfer) TLC re-derives finding F17 "
                      "(ProcessedBaseSound violated)")
     parts.append(p17)
+    kf20 = run_tlc("MC_Multi.tla", "MultiKF20.cfg", expect_violation=True, heap="3g")
+    if kf20.violated != "ContentKept":
+        raise MachineryError(f"companion MultiKF20 (PartialJoin.commute as at the pinned commit) no longer violates ContentKept (got {kf20.violated})")
+    p20 = Part(name="multiengine:F20-companion", cfg="MultiKF20.cfg", states=max(kf20.distinct, 1), transitions=max(kf20.generated, 1))
+    p20.notes.append("with the pinned-commit rule (a join moves below a projection that hides a column the fixed operand also has) TLC re-derives "
+                     "finding F20: the selection in between filters on the fixed operand's column")
+    parts.append(p20)
     kf18 = run_tlc("MC_Multi.tla", "MultiKF18.cfg", expect_violation=True, heap="3g")
     if kf18.violated not in ("ContentKept", "ColumnsKept"):
         raise MachineryError(f"companion MultiKF18 (backtrack_unary as at the pinned commit) no longer violates ContentKept/ColumnsKept (got {kf18.violated})")
